@@ -689,6 +689,17 @@ def c20(ctx):
 
 
 def total_validate(ctx, acc, name, trace, timeout=3000):
+    lines = [l for l in open(trace) if l.startswith('{')]
+    if len(lines) > 60000:
+        # long logs are validated piece by piece
+        n = 0
+        for k in range(0, len(lines), 60000):
+            part = '%s.%d' % (trace, k)
+            with open(part, 'w') as f:
+                f.writelines(lines[k:k + 60000])
+            n += total_validate(ctx, acc, '%s_%d' % (name, k // 60000), part, timeout)
+            os.remove(part)
+        return n
     nrec = sum(1 for l in open(trace) if l.startswith('{'))
     cfgt = 'CONSTANT Stride = 16\nCONSTANT CheckSpec = FALSE\nINIT Init\nNEXT Next\nINVARIANT Emit\nINVARIANT EmitCount\nCHECK_DEADLOCK FALSE\n'
     st, js = ctx.t.run_tlc_only(name, 'Trace_Total', cfgt, timeout, env={'TRACE': trace})
